@@ -20,6 +20,7 @@ theorem normal_poison (cfg : Cfg) (w : Nat) : Normal (poisonMeasure cfg w) w := 
 /-- **measure_normal** for every renderable tree and every available width `w ≥ 1` (the guard for `w < 1` is `measureGet`). -/
 theorem measure_normal (cfg : Cfg) : ∀ (r : R) (w : Nat), Normal (measure cfg r w) w
   | .text t, w => by rw [measure]; exact normal_getPost w _
+  | .str t, w => by rw [measure]; exact normal_getPost w _
   | .padding p e c, w => by rw [measure]; exact normal_getPost w _
   | .panel o c, w => by
     rw [measure]
@@ -29,7 +30,13 @@ theorem measure_normal (cfg : Cfg) : ∀ (r : R) (w : Nat), Normal (measure cfg 
   | .align o c, w => by rw [measure]; exact normal_getPost w _
   | .constrain k c, w => by rw [measure]; exact normal_getPost w _
   | .styled c, w => by rw [measure]; exact normal_getPost w _
-  | .cast c, w => by rw [measure]; exact measure_normal cfg c w
+  | .cast c, w => by
+    by_cases h : ∃ t, c = .str t
+    · obtain ⟨t, rfl⟩ := h
+      rw [measure]; exact normal_getPost w _
+    · rw [measure]
+      · exact measure_normal cfg c w
+      · intro t ht; exact h ⟨t, ht⟩
   | .opaque c, w => by rw [measure]; exact normal_getPost w _
   | .group fit items, w => by rw [measure]; exact normal_getPost w _
   | .rule o, w => by rw [measure]; exact normal_getPost w _
@@ -65,4 +72,55 @@ theorem chOf_measureAt (cfg : Cfg) (r : R) (o : Opts) (k : Int) :
     simp only
     constructor <;> omega
 
+/-! ### a fitted group reports the largest minimum and the largest maximum among its members -/
+
+theorem getPost_of_normal (w : Nat) (m : Measurement) (h : Normal m w) : Measurement.getPost (w : Int) (some m) = m := by
+  obtain ⟨h1, h2, h3⟩ := h
+  cases m with
+  | mk a b =>
+    simp only at h1 h2 h3
+    unfold Measurement.getPost Measurement.normalize Measurement.withMaximum
+    simp only
+    split
+    · have : a = 0 := by omega
+      have : b = 0 := by omega
+      subst_vars; rfl
+    · split
+      · rename_i hlt
+        have hb : b = 0 := by omega
+        have ha : a = 0 := by omega
+        subst_vars; rfl
+      · congr 1 <;> omega
+
+theorem measureL_normal (cfg : Cfg) : ∀ (items : List R) (w : Nat), ∀ m ∈ measureL cfg items w, Normal m w
+  | [], _, m, h => by simp [measureL] at h
+  | r :: rs, w, m, h => by
+    rw [measureL] at h
+    rcases List.mem_cons.mp h with rfl | h
+    · exact measure_normal cfg r w
+    · exact measureL_normal cfg rs w m h
+
+theorem measureL_ne_nil (cfg : Cfg) (items : List R) (w : Nat) (h : items ≠ []) : measureL cfg items w ≠ [] := by
+  cases items with
+  | nil => exact absurd rfl h
+  | cons r rs => rw [measureL]; simp
+
+theorem group_measure_is_max (cfg : Cfg) (items : List R) (w : Nat) (hne : items ≠ []) :
+    measure cfg (.group true items) w =
+      ⟨listMax ((measureL cfg items w).map (·.minimum)), listMax ((measureL cfg items w).map (·.maximum))⟩ := by
+  rw [measure]
+  have hn := measureL_ne_nil cfg items w hne
+  have hN := measureL_normal cfg items w
+  generalize measureL cfg items w = ms at hn hN
+  have hemp : ms.isEmpty = false := by cases ms with | nil => exact absurd rfl hn | cons _ _ => rfl
+  simp only [if_true, measureRenderables, hemp, Bool.false_eq_true, if_false]
+  apply getPost_of_normal
+  have hmin := listMax_mem (ms.map (·.minimum)) (by simpa using hn)
+  have hmax := listMax_mem (ms.map (·.maximum)) (by simpa using hn)
+  obtain ⟨m1, hm1, e1⟩ := List.mem_map.mp hmin
+  obtain ⟨m2, hm2, e2⟩ := List.mem_map.mp hmax
+  obtain ⟨a1, a2, a3⟩ := hN m1 hm1
+  obtain ⟨b1, b2, b3⟩ := hN m2 hm2
+  have hle : m1.maximum ≤ listMax (ms.map (·.maximum)) := listMax_ge _ _ (List.mem_map.mpr ⟨m1, hm1, rfl⟩)
+  refine ⟨?_, ?_, ?_⟩ <;> simp only <;> omega
 end RichModel.Layout
